@@ -153,6 +153,13 @@ func (d *drive) addSub() {
 	d.subs = append(d.subs, s)
 }
 
+// addSlowSub: a subscriber that keeps up, slowly (150-400 ms per value)
+func (d *drive) addSlowSub() {
+	s := subscribe(d.r, d.l.changes, func() int { return -1 }, slowPauseUS(d.rng))
+	d.subs = append(d.subs, s)
+	d.note("slowsub")
+}
+
 // addSubAsync subscribes from a separate goroutine after a random delay (random subscription time)
 func (d *drive) addSubAsync() {
 	wait := d.rng.Intn(400)
@@ -208,6 +215,9 @@ func (d *drive) finish(w *bufio.Writer, kind, id string, refCancel func(), refDo
 	}
 	d.quiet()
 	time.Sleep(300 * time.Microsecond)
+	for _, s := range d.subs {
+		s.drainWait(8 * time.Second) // slow live consumers: cancel only when nothing is in flight
+	}
 	for _, s := range d.subs {
 		if s.snapshotClosed() {
 			s.mu.Lock()
@@ -767,5 +777,57 @@ func compositeFailCase(w *bufio.Writer, rng *prng.R, id string) {
 	if waitCh(d.rr.done, 3*time.Second) && rng.Chance(1, 6) {
 		reload(false) // Reload on a finished runner
 	}
+	d.finish(w, "composite", id, refCancel, refDone)
+}
+
+// ---------------------------------------------------------------- slow live consumers (mode slowlive)
+
+// slowLiveComposite: a composite runner observed by a subscriber that keeps up SLOWLY (150-400 ms per
+// value, live subscription, far below the 5 s broadcast timeout): subscribed before Run or while Running,
+// then Run / an optional Reload / Stop or cancel in quick succession, so that several changes pile up
+// behind the consumer's pause.  Every change must arrive, in order; the subscription is cancelled only
+// after the consumer has drained.
+func slowLiveComposite(w *bufio.Writer, rng *prng.R, id string) {
+	ph := &director.ParkHandler{}
+	d := newDrive(rng, ph)
+	kids := []*child{newChild("k0")}
+	if rng.Bool() {
+		kids = append(kids, newChild("k1"))
+	}
+	cb := func() (*composite.Config[*child], error) {
+		d.l.emit(evCbOk)
+		return composite.NewConfigFromRunnables("c", kids, nil)
+	}
+	r, err := composite.NewRunner(cb, composite.WithLogHandler[*child](ph))
+	if err != nil {
+		panic(err)
+	}
+	d.r = r
+	refCancel, refDone := d.l.startRef(r)
+	before := rng.Bool()
+	if before {
+		d.addSlowSub()
+	}
+	d.callRun()
+	if !before {
+		d.quiet()
+		d.addSlowSub()
+	}
+	if rng.Bool() {
+		d.wg.Add(1)
+		go func() {
+			defer d.wg.Done()
+			d.l.emit(evReloadCall)
+			r.Reload(context.Background())
+			d.l.emit(evReloadRet)
+		}()
+		d.waitCalls(5 * time.Second)
+	}
+	if rng.Chance(2, 3) {
+		d.callStop()
+	} else {
+		d.callCancel()
+	}
+	waitCh(d.rr.done, 8*time.Second)
 	d.finish(w, "composite", id, refCancel, refDone)
 }
